@@ -1,12 +1,12 @@
 #!/usr/bin/env python3
 """Regenerates MANIFEST.json from props.py (single source of truth for the registered checks)."""
 import json, os, subprocess
-from props import PROPS, GUARD, NOT_APPLICABLE, HOOK_COMMITS
+from props import PROPS, GUARD, NOT_APPLICABLE, HOOK_COMMITS, REGISTERED
 HERE = os.path.dirname(os.path.abspath(__file__))
 ids = [json.loads(l)['id'] for l in open(os.path.join(HERE, 'properties.jsonl'))]
 checks = []
 for pid in ids:
-    if pid not in PROPS or PROPS[pid].get('unregistered'):
+    if pid not in PROPS or pid not in REGISTERED:
         continue
     P = PROPS[pid]
     checks.append({
@@ -22,7 +22,7 @@ for pid in ids:
     })
 na = []
 for pid in ids:
-    if pid in PROPS and not PROPS[pid].get('unregistered'):
+    if pid in PROPS and pid in REGISTERED:
         continue
     na.append({'property_id': pid, 'reason': NOT_APPLICABLE.get(pid, 'check not built yet; planned in DESIGN.md section 6 (property-based testing applies, no check is registered until it is calibrated on the unchanged tree)')})
 m = {
